@@ -90,6 +90,7 @@ package abci
 //@ func abciMux.decodeTx
 //@   props C09 C16
 //@   requires mux != nil && mux.state != nil && ctx != nil
+//@   modifies nothing
 //@   precall cbor\.Unmarshal$ :: params != nil && (params.MaxTxSize == 0 || uint64(len(rawTx)) <= params.MaxTxSize)
 //@   ensures err == nil ==> result0 != nil && result1 != nil && transaction.TxSigOK(result1) && len(result0.Method) > 0
 //@   ensures err == nil ==> old(mux.state.blockParams) != nil && (old(mux.state.blockParams.MaxTxSize) == 0 || uint64(len(rawTx)) <= old(mux.state.blockParams.MaxTxSize))
